@@ -107,7 +107,9 @@ def run_verus_unit(unit, scratch, tier, seed):
                 if rf.first <= sp["line_start"] <= rf.last:
                     failed_fns.add(rf.name)
     vr_v = resv["json"].get("verification-results", {})
-    if vr_v.get("encountered-vir-error") or (not resv["diags"] and resv["rc"] != 0):
+    if vr_v.get("encountered-vir-error") or (not resv["diags"] and resv["rc"] != 0) or \
+            (vr_v.get("encountered-error") and not vr_v.get("verified") and not vr_v.get("errors")):
+        # the variant did not get as far as verification (a Rust/Verus front-end error in a reach copy)
         ur.undecided.append("reachability variant did not run: " + (vunit.classify(resv, gv)[1] or ["?"])[0][:300])
     for rf in gv.reach:
         ok = rf.name in failed_fns
